@@ -28,7 +28,7 @@ ASSUMPTIONS = [
     'only the second direction is asserted',
 ]
 TRUSTED = ['pbt/fakezk.py', 'pbt/mastersim.py']
-BUDGET = {'quick': 2400, 'thorough': 64000}
+BUDGET = {'quick': 2400, 'thorough': 128000}
 
 PROFILE = {
     'weights': {'restart': 8, 'reboot': 2, 'down': 3, 'up': 2, 'idg': 2,
